@@ -82,7 +82,10 @@ def run(eng, ctx):
     okf = first is not None and first.kind == "call" and _is_super_setattr(first.term) and flag is not None and first.term[3] == (("const", flag), ("const", False)) and not first.guards
     ctx.check(bool(okf), "C14.D2", init.qualname, "flag created first", expected=f"super().__setattr__({flag!r}, False) as the first effect", found=show(first.term)[:80] if first else "-", **eng.loc(init, first.node if first else init.node))
     last = effs[-1] if effs else None
-    okl = last is not None and last.kind == "store" and last.target == ("self", flag) and last.term == ("const", True) and si.final is not None and not si.final.dead and tuple(last.dnf) == tuple(si.final.dnf) and not last.loops
+    # the closing write is `self.<flag> = True`, or the same write made the way the flag was created (super().__setattr__(<flag>, True))
+    last_is_store = last is not None and last.kind == "store" and last.target == ("self", flag) and last.term == ("const", True)
+    last_is_super = last is not None and last.kind == "call" and _is_super_setattr(last.term) and flag is not None and last.term[3] == (("const", flag), ("const", True))
+    okl = (last_is_store or last_is_super) and si.final is not None and not si.final.dead and tuple(last.dnf) == tuple(si.final.dnf) and not last.loops
     ctx.check(bool(okl), "C14.D2", init.qualname, "flag set last", expected=f"self.{flag} = True as the last effect of every normal completion", found=(f"{last.kind} {show(last.term)[:40]} -> {last.target}" if last else "-"), **eng.loc(init, last.node if last else init.node))
     other_flag_stores = [e for e in si.effects if e.kind == "store" and e.target == ("self", flag) and e is not last]
     for e in other_flag_stores:
@@ -91,7 +94,7 @@ def run(eng, ctx):
 
     # ---------------- D3 no bypass
     ctx.rule("C14.D3", "no bypass of __setattr__ anywhere in the package")
-    allowed = {(sa.qualname, id(e.node)) for e in dels} | ({(init.qualname, id(first.node))} if first is not None else set())
+    allowed = {(sa.qualname, id(e.node)) for e in dels} | ({(init.qualname, id(first.node))} if first is not None else set()) | ({(init.qualname, id(last.node))} if last_is_super and okl else set())
     nby = 0
     for f in eng.repo.all_funcs():
         for node in walk_no_nested(f.node):
